@@ -26,6 +26,7 @@ impl ItemProject {
     pub fn render(&self) -> Project {
         Project {
             files: self.files.iter().map(|(n, items)| (n.clone(), format!("{}{}", HEADER, items.join("\n")))).collect(),
+            links: vec![],
         }
     }
 }
